@@ -195,9 +195,20 @@ func TestCommandPairs(t *testing.T) {
 					}
 					if withA {
 						ca := prepare(ea, w.BMC, n*17+int(ev.Seed))
-						ctx, cancel := w.Ctx(3)
+						// what A's exchange looked like varies: the BMC may number its RMCP
+						// and session-less headers, and a stray packet (ASF pong / RMCP ACK,
+						// delayed session-setup packet, reply to another command) may
+						// precede A's reply or be all that A receives
+						w.BMC.RMCPSeq = []byte{0, 0x2a, 0xfe, 0}[n%4]
+						w.BMC.NumberPlain = n%5 == 1
+						script := [][]hx.Outcome{{hx.Final}, {hx.StrayASF, hx.Final}, {hx.StraySetup, hx.Final}, {hx.StrayOK, hx.Final}, {hx.StrayASF}, {hx.StraySetup}, {hx.Garbage, hx.Final}}[n%7]
+						sc := &hx.Scripter{Script: script}
+						sc.Install(w.BMC)
+						ctx, cancel := w.Ctx(len(script))
 						cn.SendCommand(ctx, ca.Cmd)
 						cancel()
+						w.BMC.Intercept, w.BMC.RMCPSeq, w.BMC.NumberPlain = nil, 0, false
+						w.Net.Drain()
 					}
 					// the BMC-side data (and state such as the SDR reservation) for B
 					// is installed after A, so both runs face the same BMC answers
